@@ -76,7 +76,13 @@ def search(chk, r, n, max_pto):
     # structured block: heavy-flavour neutral-current cross sections in a massive scheme at high Q2
     # (the heavy-quark initiated channels give xF3_charm/bottom a LO term)
     structured = [("XSHERANC", "NC", proj, fl_) for proj in ("electron", "positron") for fl_ in ("charm", "bottom")] + [("XSHERANCAVG", "NC", "electron", "charm"), ("XSHERACC", "CC", "positron", "charm")]
-    for i_ in range(n + len(structured)):
+    # every unpolarised kind with target-mass corrections on, at low Q2 and large x (where a spurious
+    # mass factor in a coefficient would be of order one): the combination is of the corrected structure
+    # functions of the same run, with the documented coefficients
+    tmc_block = [(k_, ("NC" if k_ in ("XSHERANC", "XSHERANCAVG") else "CC") if k_ not in ("F1",) else pr_, pj_, "light", t_)
+                 for k_ in cards.XS if k_ != "g5" for t_ in (1, 3)
+                 for pr_, pj_ in ((("NC", "electron"),) if k_ in ("XSHERANC", "XSHERANCAVG", "F1") else (("CC", "antineutrino"),))]
+    for i_ in range(n + len(structured) + len(tmc_block)):
         kind = r.choice(cards.XS)
         if kind == "g5":
             process, proj = r.choice(["NC"]), r.choice(["electron", "positron"])
@@ -101,6 +107,11 @@ def search(chk, r, n, max_pto):
             tmc = 0
         if structured_case:
             pts = [dict(x=0.05, Q2=2000.0, y=0.7)]
+        tmc_case = i_ >= n + len(structured)
+        if tmc_case:
+            kind, process, proj, fl, tmc = tmc_block[i_ - n - len(structured)]
+            scheme, nfff, pto = "ZM-VFNS", 4, 0
+            pts = [dict(x=0.5, Q2=2.0, y=0.6)]
         sfs = ["g4", "gL", "g1"] if kind == "g5" else ["F2", "FL", "F3"]
         name = f"{kind}_{fl}"
         obs = {name: pts}
